@@ -1,2 +1,10 @@
 #!/bin/sh
-exit 0
+# Builds the verifier (govc) offline from /verif/engine and warms the build cache for the target packages.
+set -e
+cd "$(dirname "$0")"
+. ./env.sh
+mkdir -p bin evidence
+(cd engine && go build -o ../bin/govc .)
+# warm: type-check the target packages once with the verif tag (compiles export data into the build cache)
+(cd /repo/go && go build -tags verif ./store/nbs/... ./store/val/... ./store/datas/... ./store/types/... ./store/blobstore/... ./store/prolly/... ./libraries/doltcore/ref/... >/dev/null 2>&1 || true)
+echo setup ok
